@@ -152,6 +152,28 @@ func genFmtWordbreak(r *rng) fmtIn {
 	if r.chance(30) {
 		in.Values = append(in.Values, fmtValue{Value: "unrelated", Display: "unrelated"})
 	}
+	if r.chance(25) {
+		// a candidate that is exactly the part of the word the shell keeps: nothing is left to insert
+		v := stem + pick(r, []string{"", "", "\n", "\t"})
+		in.Values = append(in.Values, fmtValue{Value: v, Display: v, Description: pick(r, []string{"", "the stem"})})
+		if r.chance(50) {
+			in.Values = in.Values[len(in.Values)-1:]
+		}
+		if r.chance(40) {
+			in.Meta.Messages = []string{pick(r, []string{"", "failed", "a message"})}
+		}
+	}
+	if r.chance(20) {
+		// candidates that differ inside a multi-byte character only (same lead byte)
+		t := stem + pick(r, []string{"", "X"})
+		in.Values = []fmtValue{{Value: t + "ß", Display: t + "ß"}, {Value: t + "ü1", Display: t + "ü1", Description: "d"}}
+		if r.chance(30) {
+			in.Values = append(in.Values, fmtValue{Value: t + "é", Display: t + "é"})
+		}
+		if r.chance(50) {
+			in.Values = []fmtValue{{Value: t + "日本", Display: t + "日本"}, {Value: t + "日曜", Display: t + "日曜"}, {Value: t + "旦", Display: t + "旦"}}
+		}
+	}
 	in.Word = stem + pick(r, []string{"", "v", "va"})
 	if r.chance(20) {
 		in.Word = stem[:len(stem)-1]
@@ -268,15 +290,15 @@ func genFmt(r *rng, tier string) interface{} {
 	in.Env.Unfiltered = r.chance(10)
 	if r.chance(15) {
 		// boolean switches are on for "1" and "true" only: anything else, though set, means off
-		in.Env.BoolVal = pick(r, []string{"true", "0", "false", "no", "off", "TRUE", "yes", "2", " "})
-		in.Env.Unfiltered = in.Env.BoolVal == "true"
+		in.Env.BoolVal = pick(r, []string{"true", "1", "0", "false", "no", "off", "TRUE", "yes", "2", " ", "t", "T", "True"})
+		in.Env.Unfiltered = in.Env.BoolVal == "true" || in.Env.BoolVal == "1"
 	}
 	if r.chance(10) {
 		in.Env.Nospace = pick(r, []string{"/", "=:", "*", "a"})
 	}
 	in.Env.NoColor = r.chance(10)
 	if in.Env.BoolVal != "" {
-		in.Env.NoColor = in.Env.BoolVal == "true"
+		in.Env.NoColor = in.Env.BoolVal == "true" || in.Env.BoolVal == "1"
 	}
 	in.Env.CI = r.chance(15)
 	switch in.Shell {
